@@ -99,10 +99,11 @@ class SSCChart(BaseChart):
             raise ValueError("expected NOTEDATA property first")
 
         for param in iterator:
-            if param.key in BaseSimfile.MULTI_VALUE_PROPERTIES:
-                self[param.key] = ":".join(param.components[1:])
+            key = param.key.upper()
+            if key in BaseSimfile.MULTI_VALUE_PROPERTIES:
+                self[key] = ":".join(param.components[1:])
             else:
-                self[param.key] = param.value
+                self[key] = param.value
             if param.value is self.notes:
                 break
 
